@@ -36,7 +36,7 @@ deriving Repr, DecidableEq
 def init (c : Cfg) : State := { mem := List.replicate c.depth 0 }
 
 def step (c : Cfg) (s : State) (i : In) : State × Out :=
-  ({ mem := wrAll c.g c.n s.mem i.writes },
+  ({ mem := wrAll (mergeW c.g c.n) s.mem i.writes },
    { reads := i.reads.map (fun r => r.map (rd s.mem)), writes := i.writes.map Option.isSome })
 
 /-- run a history, collecting the outputs of every cycle -/
